@@ -91,7 +91,7 @@ func doSelfTestTo(prop, repo, verif string, w io.Writer) int {
 		msg string
 	}
 	outs := make([]outcome, len(sel))
-	sem := make(chan struct{}, 4)
+	sem := make(chan struct{}, 8)
 	var wg sync.WaitGroup
 	for i, m := range sel {
 		wg.Add(1)
